@@ -283,6 +283,12 @@ func c04Mutation(c *Ctx) {
 					return true, at.Op == token.EQL
 				}
 			}
+			// the check may also answer "there is a clash" as a boolean (next to the clashing client)
+			if at.Op == token.ILLEGAL && core.IsCallResult(core.ResolveCellLoad(at.Base), -1, key) {
+				if bt, ok := at.Base.Type().Underlying().(*types.Basic); ok && bt.Kind() == types.Bool {
+					return true, false
+				}
+			}
 			return false, false
 		})
 	}
